@@ -702,6 +702,42 @@ pub fn exec_apply(case: &ApplyCase, tally: &mut Tally, prop: &str) -> Result<(),
             multi = true;
         }
     }
+    // Local writes after the deliveries (C04: "a fresh version exactly one above the owner's
+    // previous max version"), in particular on an own state that a delta about the receiver
+    // itself (same-id restart) left with a watermark above its max version.
+    if prop == "C04" {
+        let own = r.self_node_state();
+        let (gc0, max0) = (own.last_gc_version(), own.max_version());
+        let live: Option<String> = own.key_values().map(|(k, _)| k.to_string()).next();
+        let mut expect = max0;
+        let r1 = guard(|| {
+            let own = r.self_node_state();
+            let mut seen: Vec<(&'static str, u64, u64)> = Vec::new();
+            own.set("zz-local-new", "1");
+            seen.push(("set of a new key", own.get_versioned("zz-local-new").map(|v| v.version).unwrap_or(0), own.max_version()));
+            own.delete("zz-local-new");
+            seen.push(("delete of a live key", own.get_versioned("zz-local-new").map(|v| v.version).unwrap_or(0), own.max_version()));
+            if let Some(k) = &live {
+                own.delete_after_ttl(k);
+                seen.push(("delete_after_ttl of a live key", own.get_versioned(k).map(|v| v.version).unwrap_or(0), own.max_version()));
+            }
+            seen
+        });
+        match r1 {
+            Ok(seen) => {
+                for (what, version, max) in seen {
+                    expect += 1;
+                    if version != expect || max != expect {
+                        return vio("C04/local-version-not-previous-max-plus-one", format!("own state at (watermark {gc0}, max version {max0}) after the deliveries: the {what} got version {version} (max version now {max}), expected {expect}"));
+                    }
+                }
+                if gc0 > max0 {
+                    tally.label("local_writes_on_own_state_with_watermark_above_max");
+                }
+            }
+            Err(p) => return vio(&format!("C04/{}", p.signature()), format!("a local write after the deliveries panicked: {}", p.describe())),
+        }
+    }
     let nontrivial = match prop {
         "C20" => any_reset_case,
         _ => any_reset_case || case.twice || !deltas.is_empty(),
